@@ -174,6 +174,16 @@ def run_noh(ctx, p):
     c.set_new_solver_tolerance(min(1e-2, 1e-12 * max(1.0, rl, u0 * u0)))
     Cc = ctx.call(c, r, t)
     cmp(ctx, "route.noh", "Noh~NohBlackBoxEos", br, A, Cc, F4, 1e-8, detail=dict(p))
+    # the documented way to improve on a result: another starting point (here 15 % off on the other side), solve again
+    try:
+        c.set_new_solver_initial_guess([0.87 * rl, 1.12 * 0.5 * u0 * u0, 0.88 * abs(u0) * (g - 1) / 2])
+        ctx.quiet(c.solve_jump_conditions)
+        C2 = ctx.call(c, r, t)
+        cmp(ctx, "route.noh", "Noh~NohBlackBoxEos", br + " solved a second time from another starting point", A, C2, F4, 1e-8, detail=dict(p))
+    except SolverRaised:
+        ctx.count("bbnoh_second_solve_raised")
+    except Exception as ex:  # noqa: BLE001 - the library's own exception types (IterationError ...)
+        ctx.count("bbnoh_second_solve_raised:" + type(ex).__name__)
 
 
 # ---- Noh2 / Noh2Cog / Cog1 ----------------------------------------------------------------------------------------
